@@ -74,15 +74,15 @@ CHECKS = {
  "C17": dict(level="model_checking", engine="netmc", ref="§3 C17",
    technique="explicit-state BFS over event sequences of a reference model + conformance replay of every explored transition against running trackers (worker-count configurations, placements), every connection fenced after every event",
    text="Event sequences (announce with own / another connection's peer id, with offers, answers to received offers, scrapes merged over swarm workers, orderly and abrupt close) are enumerated breadth-first with deduplication on an abstract model state (depth 2-3 on the full alphabet, 4-5 on a signalling alphabet); each explored transition is replayed with its BFS-tree path in a fresh namespace against aquatic_ws::run for socket_workers x swarm_workers in {1,2,3}^2 (quick: the diagonal) with connections on chosen socket workers (hook H7) and torrents on chosen swarm workers; after every event every connection plus a monitor connection is fenced by a scrape covering all swarm workers and the messages each connection received must be exactly those a reference tracker with per-connection ownership allows (offer receivers are the implementation's choice, checked for legality and followed). 30 ownership paths run on fresh 2-worker trackers where two connections are each the first of their socket worker, so that per-worker connection ids coincide. Pipelined bursts: n = 1..=16 (and 17, 24, 64, 200) requests written to one connection in a single flush must all be answered and all their offers delivered (beyond 16 in flight the tracker drops messages: known finding). Large messages: forwarded offers and answers at every size class up to the 64 KiB message limit and scrape replies for 1..300 torrents must arrive whole and leave the connections usable. A connection the tracker closes itself for idleness must lose its peers too.",
-   note="Executor scheduling not controlled; few messages in flight per connection (the 16-slot local channel that drops on overflow is outside the bound); dedup ignores pending offers."),
+   note="Executor scheduling not controlled; paths issue one request at a time, pipelining and message sizes have their own exhaustive phases; dedup ignores pending offers."),
  "C11": dict(level="model_checking", engine="seqmc", ref="§3 C11",
    technique="exhaustive enumeration of list-file contents x reload sequences; explicit-state BFS over announce / reload / clean histories on a live socket worker and on the storages; SIGUSR1 reload sequences against all three run()",
    text="Layer 1: 57 list-file variants (subsets of {A,B} in lower / upper / mixed hex, blank lines, surrounding blanks and tabs, CRLF, missing final newline; missing file, directory, a bad line of five kinds at first / middle / last position, invalid UTF-8) in all reload sequences of length <= 2 (thorough 3) x 3 modes through update_access_list: decisions follow the last good list, a failed reload returns Err and changes nothing. Layer 2: BFS (dedup on list in force x stored torrents) over announce-datagram / reload / clean histories on a live UDP socket worker (mio and io_uring) and seqmc over the HTTP and WS storages with reload events. Layer 3: aquatic_udp/http/ws run() in child processes x modes: file rewritten, SIGUSR1, reload completion awaited via the H8 counter, announces of A/B/C, timer-driven clean, scrapes, over {}->{A}->{B}->malformed->{A,B}->missing.",
    note="Layer 3 waits 2.3 s per step for a timer-driven cleaning pass; HTTP/WS gates are exercised in layer 3 only."),
  "C03": dict(level="exploration", engine="netmc", ref="§3 C03",
    technique="exhaustive enumeration of address classes and reverse-proxy header layouts through the real functions, and of socket configurations x source addresses x in-request address fields against real trackers over loopback",
-   text="Direct: CanonicalSocketAddr::new / get_ipv6_mapped and the ws IpVersion over IPv4, IPv6, IPv4-mapped and 24 near-miss addresses x ports; 576 reverse-proxy header layouts (1-3 occurrences x 1-3 values x whitespace shapes x value kinds x unrelated headers) through the HTTP socket worker's parse_request. End to end: UDP (mio, io_uring) and HTTP started through run() for {v4 only, v6 only, v6 dual-stack, both}, WS for {v4, v6 only, dual-stack}; sources 127.0.0.1/.2/.3, 192.0.2.2, ::1, fd00::2, IPv4 hosts also through the dual-stack socket; X announces with every in-request ip value, every other source Y of the family must be told exactly (network source of X, announced port) and the other family must not see the peer; HTTP behind a proxy with the driver as proxy.",
-   note="Loopback / local addresses only; header-name case variants not tested."),
+   text="Direct: CanonicalSocketAddr::new / get_ipv6_mapped and the ws IpVersion over IPv4, IPv6, IPv4-mapped and 24 near-miss addresses x ports; ~2700 reverse-proxy header layouts (1-3 occurrences x 1-3 values x whitespace shapes x value kinds x unrelated headers x letter case of the field name per occurrence) through the HTTP socket worker's parse_request. End to end: UDP (mio, io_uring) and HTTP started through run() for {v4 only, v6 only, v6 dual-stack, both}, WS for {v4, v6 only, dual-stack}; sources 127.0.0.1/.2/.3, 192.0.2.2, ::1, fd00::2, IPv4 hosts also through the dual-stack socket; X announces with every in-request ip value, every other source Y of the family must be told exactly (network source of X, announced port) and the other family must not see the peer; HTTP behind a proxy with the driver as proxy, including every sequence of 2-3 header values (IPv4, IPv4, mapped, IPv6) announced over one kept-alive connection.",
+   note="Loopback / local addresses only; letter case of the header name varied per occurrence; behind a proxy every sequence of 2-3 header values over one kept-alive connection."),
 }
 
 NOT_YET = {}
